@@ -201,4 +201,130 @@ theorem shortOpt_step (opts : List SOpt) {argv : List Buf} {st : St} {c : Nat} {
         refine ⟨(letter c, d :: ds), _, [], rest, rfl, Rel.afterTake hv1 h.argv_eq h.rest_eq h.rnz, rfl, by simp, ?_⟩
         simp [cluster, hf, ht]
 
+
+/-- the specification's treatment of a word `--body` (body not empty) followed by `rest` -/
+def specLong (opts : List SOpt) (w body : List Nat) (rest : List Word) : List Res :=
+  match findLong opts (splitEq body).1 (splitEq body).2.isSome with
+  | none => (63, w) :: parse opts none rest
+  | some o =>
+    if o.takesArg then
+      match (splitEq body).2 with
+      | some v => (o.character, v) :: parse opts none rest
+      | none =>
+        if o.optional then (o.character, []) :: parse opts none rest
+        else parse opts (some (o.character, w)) rest
+    else (o.character, []) :: parse opts none rest
+
+theorem findLong_takesArg {opts : List SOpt} {n : Word} {o : SOpt} (h : findLong opts n true = some o) :
+    o.takesArg = true := by
+  have := List.find?_some h
+  simp at this
+  exact this.2
+
+/-- one `read` of a long option: `arg` stands behind the `--` of the word `w = --body` -/
+theorem longOpt_step (opts : List SOpt) (hok : OptsOk opts) {argv : List Buf} {st : St} {body : List Nat}
+    {rest : List Word} (hv : View st (term (45 :: 45 :: body)) [45, 45] (body ++ [0])) (hb : NoNul body)
+    (ha : st.argv = argv) (hr : argv.drop st.cur = rest.map term) (hrn : ∀ x ∈ rest, NoNul x)
+    (hskip : st.skipOpt = false) :
+    ∃ r st' rest', longOpt (opts.map toModel) st = some (some r, st') ∧ Rel argv st' [] rest' ∧
+      st'.skipOpt = false ∧ size rest' ≤ size rest ∧
+      specLong opts (45 :: 45 :: body) body rest = r :: parse opts none rest' := by
+  have hbuf := hv.1
+  have hoff : st.off = 2 := by simpa using hv.2.2
+  have hdrop : (term (45 :: 45 :: body)).drop st.off = body ++ 0 :: [] := by simp [hoff, term]
+  obtain ⟨hsplit, hno⟩ := splitEq_append body
+  have hsl : slice (term (45 :: 45 :: body)) (st.off - 2) (body.length + 2) = some (45 :: 45 :: body) := by
+    have := slice_mid [] (45 :: 45 :: body) [0]
+    simpa [hoff, term] using this
+  unfold longOpt specLong
+  simp only [hbuf, hdrop, findL_spec body [] hb]
+  cases hval : (splitEq body).2 with
+  | none =>
+    -- `--name`
+    have hbody : body = (splitEq body).1 := by simpa [hval] using hsplit
+    have hfl := findLongOpt_map opts hok body [0] hb false
+    simp only [Option.map_none, strlenL_spec body [] hb, Option.isSome_none]
+    simp only [← hbody, hfl]
+    have hv3 : View { st with off := st.off + body.length } (term (45 :: 45 :: body)) ([45, 45] ++ body) [0] :=
+      View.advance (st := st) hv rfl rfl
+    have hR3 : Rel argv { st with off := st.off + body.length } [] rest :=
+      ⟨ha, hr, ⟨_, _, by simpa using hv3⟩, by intro x hx; simp at hx, hrn, by simp, by simp⟩
+    cases hf : findLong opts body false with
+    | none =>
+      have hl2 : strlenL ((body ++ [0]).drop body.length) = some 0 := by simp [strlenL]
+      have h2 : ¬ st.off < 2 := by omega
+      simp only [Option.map_none, hl2, h2, if_false, Nat.add_zero, hsl]
+      exact ⟨_, _, rest, rfl, hR3, hskip, Nat.le_refl _, rfl⟩
+    | some o =>
+      simp only [Option.map_some, toModel_takesArg, toModel_optional, toModel_character, Bool.false_eq_true, if_false]
+      by_cases ht : o.takesArg = true
+      case neg =>
+        have ht' : o.takesArg = false := by simpa using ht
+        simp only [ht', Bool.false_eq_true, if_false]
+        exact ⟨_, _, rest, rfl, hR3, hskip, Nat.le_refl _, rfl⟩
+      case pos =>
+        simp only [ht, if_true]
+        by_cases ho : o.optional = true
+        case pos =>
+          simp only [ho, Bool.not_true, Bool.false_eq_true, if_false, if_true]
+          exact ⟨_, _, rest, rfl, hR3, hskip, Nat.le_refl _, rfl⟩
+        case neg =>
+          have ho' : o.optional = false := by simpa using ho
+          simp only [ho', Bool.not_false, if_true, Bool.false_eq_true, if_false]
+          cases rest with
+          | nil =>
+            rw [nextChar_end hR3]
+            have h2 : ¬ st.off < 2 := by omega
+            simp only [h2, if_false, hsl]
+            exact ⟨_, _, [], rfl, hR3, hskip, Nat.le_refl _, by simp [parse]⟩
+          | cons v rest' =>
+            obtain ⟨hn, hvf, hrf⟩ := nextChar_fetch hR3
+            rw [hn]
+            have hvn : NoNul v := hrn v (by simp)
+            simp only [takeRest_view hvf hvn]
+            exact ⟨_, _, rest', rfl, Rel.afterTake hvf ha hrf (fun x hx => hrn x (by simp [hx])), hskip,
+              by simp [size], by simp [parse]⟩
+  | some value =>
+    -- `--name=value`
+    have hbody : body = (splitEq body).1 ++ 61 :: value := by simpa [hval] using hsplit
+    have hnn : NoNul (splitEq body).1 := by rw [hbody] at hb; exact hb.append_left
+    have hvn : NoNul value := by
+      rw [hbody] at hb; exact (hb.append_right).tail
+    have hfl := findLongOpt_map opts hok (splitEq body).1 (61 :: value ++ [0]) hnn true
+    have hbv : body ++ [0] = (splitEq body).1 ++ (61 :: value ++ [0]) :=
+      (congrArg (· ++ [0]) hbody).trans (by simp)
+    simp only [Option.map_some, Option.isSome_some, if_true]
+    rw [hbv, hfl]
+    cases hf : findLong opts (splitEq body).1 true with
+    | none =>
+      have hl2 : strlenL (((splitEq body).1 ++ (61 :: value ++ [0])).drop (splitEq body).1.length) = some (value.length + 1) := by
+        have h61 : NoNul (61 :: value) := by
+          intro x hx
+          rcases List.mem_cons.mp hx with e | e
+          · omega
+          · exact hvn x e
+        have := strlenL_spec (61 :: value) [] h61
+        simpa using this
+      have h2 : ¬ st.off < 2 := by omega
+      have hlen : (splitEq body).1.length + (value.length + 1) = body.length := by
+        have := congrArg List.length hbody
+        simp at this
+        omega
+      simp only [Option.map_none, hl2, h2, if_false, hlen, hsl]
+      have hv3 : View { st with off := st.off + body.length } (term (45 :: 45 :: body)) ([45, 45] ++ body) [0] :=
+        View.advance (st := st) hv rfl rfl
+      exact ⟨_, _, rest, rfl, ⟨ha, hr, ⟨_, _, by simpa using hv3⟩, by intro x hx; simp at hx, hrn, by simp, by simp⟩,
+        hskip, Nat.le_refl _, rfl⟩
+    | some o =>
+      have ht := findLong_takesArg hf
+      simp only [Option.map_some, toModel_takesArg, toModel_character, ht, if_true]
+      have hv3 : View { st with off := st.off + ((splitEq body).1.length + 1) } (term (45 :: 45 :: body))
+          ([45, 45] ++ ((splitEq body).1 ++ [61])) (value ++ [0]) := by
+        have hv' : View st (term (45 :: 45 :: body)) [45, 45] (((splitEq body).1 ++ [61]) ++ (value ++ [0])) := by
+          have : ((splitEq body).1 ++ [61]) ++ (value ++ [0]) = body ++ [0] := by rw [hbv]; simp
+          rw [this]; exact hv
+        exact View.advance (st := st) hv' rfl (by simp)
+      simp only [takeRest_view hv3 hvn]
+      exact ⟨_, _, rest, rfl, Rel.afterTake hv3 ha hr hrn, hskip, Nat.le_refl _, rfl⟩
+
 end Nstd.Args
